@@ -295,8 +295,8 @@ def ev_cov(case, rec):
 
 
 SUBCHECKS = [
-    Sub('grid', gen, ev, chunk=2, floor=500),
-    Sub('covariance', gen_cov, ev_cov, chunk=1, floor=50),
+    Sub('grid', gen, ev, chunk=2, floor=500, guard=True),
+    Sub('covariance', gen_cov, ev_cov, chunk=1, floor=50, guard=True),
 ]
 
 
